@@ -255,7 +255,7 @@ func failScenario(cf conf) engine.Scenario {
 func noPRelin(c *engine.Chooser, m *machine) {
 	w := m.w
 	if w.cf.NP != 0 {
-		c.Skip("not applicable: parameter set has auxiliary primes")
+		c.Cover("relin", "with-P")
 		return
 	}
 	c.Cover("relin", "no-P-no-base2")
@@ -283,7 +283,7 @@ func noPRelin(c *engine.Chooser, m *machine) {
 // exact. One leaf, its own signature.
 func collisionScenario() engine.Scenario {
 	return engine.Scenario{Name: "params/q61-downstream/bfv", Bound: -1, Fn: func(c *engine.Chooser) {
-		cf := conf{bgvu.Conf{Name: "t97-q61x4-p61x1-downstream", LogN: 4, QBits: 61, NQ: 4, PBits: 61, NP: 1, T: 97}, true}
+		cf := conf{Conf: bgvu.Conf{Name: "t97-q61x4-p61x1-downstream", LogN: 4, QBits: 61, NQ: 4, PBits: 61, NP: 1, T: 97}, si: true}
 		m := newMachine(c, cf, newScenState("collision"))
 		if m == nil {
 			return
@@ -318,18 +318,39 @@ func scenarios(tier string) []engine.Scenario {
 	for _, cf := range qmulConfigs() {
 		scs = append(scs, qmulScenario(cf))
 	}
-	wide := wideAlphabet([]int{0, 3})
+	wide := wideAlphabet([]int{0, 3, 2})
 	core := coreAlphabet()
+	mini := miniAlphabet()
 	for _, cf := range configs(tier) {
 		scs = append(scs, failScenario(cf))
 		const nch = 8
-		for k := 0; k < nch; k++ {
+		switch {
+		case cf.light:
+			scs = append(scs, progScenario(cf, "wide", [][]instr{wide}, 0, 1))
+			scs = append(scs, progScenario(cf, "mini-mini", [][]instr{mini, mini}, 0, 1))
 			if tier == "thorough" {
+				for k := 0; k < nch; k++ {
+					scs = append(scs, progScenario(cf, "core-wide", [][]instr{core, wide}, k, nch))
+					scs = append(scs, progScenario(cf, "mini-mini-mini", [][]instr{mini, mini, mini}, k, nch))
+				}
+			}
+		case tier == "thorough":
+			for k := 0; k < nch; k++ {
 				scs = append(scs, progScenario(cf, "wide-wide", [][]instr{wide, wide}, k, nch))
 				scs = append(scs, progScenario(cf, "core-core-core", [][]instr{core, core, core}, k, nch))
-			} else {
+			}
+			if cf.Name == "t97-q30x4-p30x1" {
+				// length 3 with a wide last step and length 4 on the reduced alphabet, one parameter set, both modes
+				for k := 0; k < 4*nch; k++ {
+					scs = append(scs, progScenario(cf, "core-core-wide", [][]instr{core, core, wide}, k, 4*nch))
+					scs = append(scs, progScenario(cf, "mini^4", [][]instr{mini, mini, mini, mini}, k, 4*nch))
+				}
+			}
+		default:
+			for k := 0; k < nch; k++ {
 				scs = append(scs, progScenario(cf, "core-wide", [][]instr{core, wide}, k, nch))
 				scs = append(scs, progScenario(cf, "wide-core", [][]instr{wide, core}, k, nch))
+				scs = append(scs, progScenario(cf, "mini-mini-mini", [][]instr{mini, mini, mini}, k, nch))
 			}
 		}
 		for k := 0; k < 2; k++ {
@@ -360,7 +381,7 @@ func main() {
 		QuickBudget:    150 * time.Second,
 		ThoroughBudget: 25 * time.Minute,
 		Expect: func(tier string) []string {
-			e := []string{"mode=bgv", "mode=bfv", "t=97", "t=17-gap2", "t=65537", "t=30bit", "t=60bit", "scales=mismatched", "scales=equal",
+			e := []string{"mode=bgv", "mode=bfv", "t=97", "t=17-gap2", "t=17-gap4", "t=17-gap8", "relin=no-P-no-base2", "pattern=mini-mini-mini", "t=65537", "t=30bit", "t=60bit", "scales=mismatched", "scales=equal",
 				"levels=different", "levels=equal", "budget=exceeded", "rescale=nop-bfv", "spine=reached-level-0", "pattern=spine", "pattern=qmul-boundary",
 				"qmul-judged=logN=10", "qmul-judged=logN=4", "qmul-ring=logN=10 slots=8", "qmul-ring=logN=10 slots=16", "qmul-ring=logN=10 slots=1024",
 				"qmul-ring=logN=4 slots=8", "qmul-ring=logN=4 slots=16"}
